@@ -127,13 +127,13 @@ Definition parse_request (o : url_oracle) (b : bytes) : res parsed :=
     let '(h, rest') := hr in
     if is_chunked h then
       bind (chunks_all (S (List.length rest')) CSize [] rest') (fun br =>
-      Ok {| p_method := fst mv; p_v10 := snd mv; p_path := unquote (u_path (fst sp));
+      Ok {| p_method := fst (fst mv); p_v10 := snd (fst mv); p_path := unquote (u_path (fst sp));
             p_query := u_query (fst sp); p_headers := h;
             p_length := Some (blen (fst br)); p_body := fst br |})
     else match req_length h with
          | None => Exc HTTPExc
          | Some n => if blen rest' <? n then Exc StopIter else
-                     Ok {| p_method := fst mv; p_v10 := snd mv; p_path := unquote (u_path (fst sp));
+                     Ok {| p_method := fst (fst mv); p_v10 := snd (fst mv); p_path := unquote (u_path (fst sp));
                            p_query := u_query (fst sp); p_headers := h;
                            p_length := Some n; p_body := firstn (N.to_nat n) rest' |}
          end)))
